@@ -10,6 +10,7 @@ import (
 	"io/ioutil"
 	"math/rand"
 	"os"
+	"sort"
 	"strings"
 
 	"verifh/core"
@@ -23,6 +24,8 @@ type job struct {
 	NBytes   int    `json:"nbytes"`
 	Idx      int    `json:"idx"`
 	From     int    `json:"from"` // gossip: first scenario to run (a restarted child continues after a crash)
+	Follow   int    `json:"follow"` // class: own steps of the node after this many deliveries that changed nothing
+	WalDir   string `json:"walDir"` // where the targets' write-ahead logs live (removed by the parent)
 }
 
 func loadEdges(path, class string) ([]*edge, error) {
@@ -74,28 +77,93 @@ func claimKey(c []interface{}) string {
 	return string(b)
 }
 
+// group is the set of exported deliveries that start from one model state (the class state itself, or the
+// class state after the peer used one or two catch-up allocations / made a majority claim).
+type group struct {
+	from  projState
+	edges []*edge
+	prep  func() error // brings a freshly built class into the state
+}
+
+// farAlloc is a vote no validator signed for a round far beyond the ones the node tracks: it is rejected, the
+// entry HeightVoteSet.AddVote created for its round stays (and costs the peer one of its two catch-up rounds).
+func allocMsg(h, r int) absMsg {
+	return absMsg{T: "vote", Ch: "vote", H: h, R: r, Typ: 1, Who: 3, VIdx: "who", VAddr: "who", Size: 4, Bid: "block", Sig: "bad", Sz: "small"}
+}
+
+// prefix makes the attacker use q catch-up allocations: the rounds of cat, the rest far away.
+func (rn *runner) prefix(q int, cat []int) error {
+	rounds := append([]int{}, cat...)
+	for len(rounds) < q {
+		rounds = append(rounds, sFAR)
+	}
+	for i, r := range rounds {
+		cm, err := rn.in.make(allocMsg(wantFacts[rn.class].H2(), r))
+		if err != nil {
+			return err
+		}
+		rn.ensureMode("none")
+		rn.probe = cm.rounds
+		o := rn.wire(cm)
+		if o.smFail != nil || !o.changed {
+			return fmt.Errorf("class %s: allocating prefix message %d (round %d) did not allocate (fail=%v changed=%v)", rn.class, i, r, o.smFail, o.changed)
+		}
+	}
+	return nil
+}
+
+// settle is called after every replayed edge: a follow-up of own steps and a fresh class after a delivery that
+// changed the node, and after every rn.follow deliveries that did not.
+func (rn *runner) settle(g *group, e *edge, changed bool, cm cause) error {
+	switch {
+	case changed && !rn.suspect && e != nil && e.To.Changed != "recover":
+		strict := e.To.Changed == "no" && !rn.unmodelled
+		if !strict && int(rn.b.rs().Height) != wantFacts[rn.class].H2() {
+			rn.res.FollowBlocked++ // the accepted message decided the height: the consensus algorithm's business
+		} else if err := rn.followUp(e.To, strict, cm); err != nil {
+			return err
+		}
+	case changed:
+	case rn.follow > 0 && rn.nSince >= rn.follow:
+		if err := rn.followUp(g.from, true, cause{Batch: rn.nSince, Last: rn.lastMsgs}); err != nil {
+			return err
+		}
+	default:
+		return nil
+	}
+	if err := rn.rebuild(); err != nil {
+		return err
+	}
+	if g != nil && g.prep != nil {
+		return g.prep()
+	}
+	return nil
+}
+
 func classChild(c *core.Ctx, j job) {
 	w := bufio.NewWriter(os.Stdout)
 	defer w.Flush()
-	res := &jobResult{Class: j.Class, ByEff: map[string]int{}, Latent: map[string]int{}}
+	res := &jobResult{Class: j.Class, ByEff: map[string]int{}, Latent: map[string]int{}, ByOwn: map[string]int{}}
 	finish := func() {
 		rj, _ := json.Marshal(res)
 		fmt.Fprintf(w, "RESULT %s\nDONE\n", rj)
 		w.Flush()
 	}
-	edges, err := loadEdges(j.Edges, j.Class)
+	all, err := loadEdges(j.Edges, j.Class)
 	if err != nil {
 		res.Infra = err.Error()
 		finish()
 		return
 	}
+	edges, own := splitEdges(all)
 	rng := rand.New(rand.NewSource(c.Seed*7919 + int64(j.Idx)))
-	rn := &runner{class: j.Class, rng: rng, res: res, w: w, variants: j.Variants, seenKey: map[string]bool{}}
+	rn := &runner{class: j.Class, rng: rng, res: res, w: w, variants: j.Variants, seenKey: map[string]bool{}, own: own, follow: j.Follow}
 	if err := rn.rebuild(); err != nil {
 		res.Infra = err.Error()
 		finish()
 		return
 	}
+	defer rn.closeWAL()
 	// the specification's own record of the class must describe the node the harness built
 	if len(edges) > 0 {
 		if got, want := rn.b.facts(), edges[0].Cf; !cfMatch(got, want) {
@@ -105,7 +173,9 @@ func classChild(c *core.Ctx, j job) {
 		}
 	}
 	// group the edges by the model state they start from
-	var base, q1, q2 []*edge
+	base := &group{}
+	byRes := map[string]*group{}
+	var resKeys []string
 	claims := map[string][]*edge{}
 	for _, e := range edges {
 		ck := claimKey(e.From.Claim)
@@ -113,14 +183,33 @@ func classChild(c *core.Ctx, j job) {
 		case ck != "":
 			claims[ck] = append(claims[ck], e)
 		case e.From.Q == 0:
-			base = append(base, e)
-		case e.From.Q == 1:
-			q1 = append(q1, e)
+			base.from = e.From
+			base.edges = append(base.edges, e)
 		default:
-			q2 = append(q2, e)
+			k := e.From.residueKey()
+			g := byRes[k]
+			if g == nil {
+				from := e.From
+				g = &group{from: from, prep: func() error { return rn.prefix(from.Q, from.Cat) }}
+				byRes[k] = g
+				resKeys = append(resKeys, k)
+			}
+			g.edges = append(g.edges, e)
 		}
 	}
-	rng.Shuffle(len(base), func(a, b int) { base[a], base[b] = base[b], base[a] })
+	if len(base.edges) == 0 {
+		res.Infra = "the model exported no delivery from the class state of " + j.Class
+		finish()
+		return
+	}
+	rn.classOwn = base.from.Own
+	if h, r, hvr, _ := rn.ownView(); h != rn.classOwn.H || r != rn.classOwn.R || hvr != rn.classOwn.Hvr {
+		res.Infra = fmt.Sprintf("class %s: the model's own = %+v does not describe the node built (h=%d r=%d HeightVoteSet.round=%d)", j.Class, rn.classOwn, h, r, hvr)
+		finish()
+		return
+	}
+	sort.Strings(resKeys)
+	rng.Shuffle(len(base.edges), func(a, b int) { base.edges[a], base.edges[b] = base.edges[b], base.edges[a] })
 	fail := func(err error) bool {
 		if err != nil {
 			res.Infra = err.Error()
@@ -129,32 +218,32 @@ func classChild(c *core.Ctx, j job) {
 		}
 		return false
 	}
-	run := func(e *edge, k int) (bool, error) {
+	run := func(g *group, e *edge, k int) (bool, error) {
 		res.Edges++
 		changed := false
-		for v := 0; v < rn.variants; v++ {
-			ch, err := rn.replayEdge(e, k+v)
+		nv := rn.variants
+		if sizeOf(e.Act.M.Sz) > 0 && nv > 2 {
+			nv = 2 // (a message at the size limit costs a mebibyte on every path: two instantiations of the other fields)
+		}
+		for v := 0; v < nv; v++ {
+			ch, cm, err := rn.replayEdge(e, k+v)
 			if err != nil {
 				return false, err
 			}
 			if ch {
 				changed = true
-				if err := rn.rebuild(); err != nil {
-					return true, err
-				}
+			}
+			if err := rn.settle(g, e, ch, cm); err != nil {
+				return changed, err
 			}
 		}
 		return changed, nil
 	}
-	// (A) and (B): every edge from the class state itself; a rebuild follows every state change
-	var allocEdges []*edge
+	// (A) and (B): every edge from the class state itself
 	var claimEdges []*edge
-	for k, e := range base {
-		if _, err := run(e, k); fail(err) {
+	for k, e := range base.edges {
+		if _, err := run(base, e, k); fail(err) {
 			return
-		}
-		if r := e.Act.M.R; e.Act.Eff == "alloc" && e.Act.M.Sig == "bad" && (r == sNEG || r == sFAR || r == sMAXI) { // symbolic rounds are fresh ones
-			allocEdges = append(allocEdges, e)
 		}
 		if e.Act.Eff == "claim" {
 			claimEdges = append(claimEdges, e)
@@ -163,52 +252,32 @@ func classChild(c *core.Ctx, j job) {
 			res.Sample = map[string]interface{}{"class": j.Class, "abstract": e.M, "expected": "stutter (eff none)", "concrete": rn.in.note}
 		}
 	}
-	// (C) the bounded catch-up allocation: after one / two allocations by this peer
-	prefix := func(n int) error {
-		if len(allocEdges) < 1 {
-			return fmt.Errorf("class %s has no allocating edge to build q=%d from", j.Class, n)
-		}
-		for i := 0; i < n; i++ {
-			e := allocEdges[rng.Intn(len(allocEdges))]
-			cm, err := rn.in.make(e.Act.M)
-			if err != nil {
-				return err
-			}
-			rn.ensureMode("none")
-			rn.probe = cm.rounds
-			o := rn.wire(cm)
-			if o.smFail != nil || !o.changed {
-				return fmt.Errorf("class %s: allocating prefix message %d did not allocate (fail=%v changed=%v): %s", j.Class, i, o.smFail, o.changed, string(e.M))
-			}
-		}
-		return nil
-	}
-	for qi, set := range [][]*edge{q1, q2} {
-		if len(set) == 0 {
-			continue
-		}
-		if fail(rn.rebuild()) {
+	// (C) after one / two catch-up allocations by this peer (which rounds they created entries for matters to the
+	// node's own steps): the quota, votes for the created entries
+	for _, gk := range resKeys {
+		g := byRes[gk]
+		if fail(rn.settle(nil, nil, true, cause{})) { // a fresh class
 			return
 		}
-		if fail(prefix(qi + 1)) {
+		if fail(g.prep()) {
 			return
 		}
 		nAff := 0
-		for k, e := range set {
+		for k, e := range g.edges {
 			if changing[e.Act.Eff] {
 				nAff++
-				if nAff > 12*rn.variants { // each needs a rebuild and the prefix again
+				if nAff > c.Pick(4, 12)*rn.variants { // each needs a rebuild and the prefix again
 					continue
 				}
 			}
-			ch, err := run(e, k)
-			if fail(err) {
+			if _, err := run(g, e, k); fail(err) {
 				return
 			}
-			if ch {
-				if fail(prefix(qi + 1)) {
-					return
-				}
+		}
+		// the node's own steps from this state, whatever was delivered since
+		if !rn.suspect {
+			if fail(rn.followUp(g.from, true, cause{Batch: rn.nSince, Last: rn.lastMsgs})) {
+				return
 			}
 		}
 	}
@@ -234,29 +303,49 @@ func classChild(c *core.Ctx, j job) {
 			rn.drift("%s: claim %s was not recorded", j.Class, string(ce.M))
 			continue
 		}
+		cg := &group{from: ce.To, prep: func() error {
+			claim, err := rn.in.make(ce.Act.M) // (a rebuilt class has new keys and blocks)
+			if err != nil {
+				return err
+			}
+			rn.ensureMode("none")
+			rn.probe = nil
+			if o := rn.wire(claim); !o.changed {
+				return fmt.Errorf("class %s: claim %s was not recorded when delivered again", j.Class, string(ce.M))
+			}
+			return nil
+		}}
 		for k, e := range set {
 			// the same claim must repeat the same block: instantiate "block" deterministically, others are fresh
-			if _, err := run(e, k); fail(err) {
+			if _, err := run(cg, e, k); fail(err) {
+				return
+			}
+		}
+		if !rn.suspect {
+			if fail(rn.followUp(ce.To, true, cause{Edge: ce, Concrete: cm.desc, Hex: hexOf(cm.bytes)})) {
 				return
 			}
 		}
 	}
 	// (D) byte-level inputs
+	if fail(rn.rebuild()) {
+		return
+	}
 	if j.NBytes > 0 {
-		if fail(rn.rebuild()) {
-			return
-		}
 		if fail(rn.bytesPhase(base, j.NBytes)) {
 			return
 		}
 	}
-	// (E) the cluster still commits
-	if rn.b.wal != nil {
-		res.WALEntries += rn.b.wal.entries
-		res.WALTooBig += rn.b.wal.tooBig
-		if rn.b.wal.maxBytes > res.WALMaxBytes {
-			res.WALMaxBytes = rn.b.wal.maxBytes
+	// (E) the node's own steps once more, then the whole cluster commits the next height
+	if !rn.suspect {
+		if fail(rn.followUp(base.from, true, cause{Batch: rn.nSince, Last: rn.lastMsgs})) {
+			return
 		}
+	}
+	if rn.b.tfail() != nil { // (reported above)
+		rn.closeWAL()
+		finish()
+		return
 	}
 	to, err := rn.liveness()
 	res.LiveTo = to
@@ -267,7 +356,21 @@ func classChild(c *core.Ctx, j job) {
 			res.Infra = err.Error()
 		}
 	}
+	rn.closeWAL()
 	finish()
+}
+
+// splitEdges separates the deliveries from the node's own steps (indexed by the state they start from).
+func splitEdges(all []*edge) (deliver []*edge, own map[string][]*edge) {
+	own = map[string][]*edge{}
+	for _, e := range all {
+		if e.Act.Op == "deliver" {
+			deliver = append(deliver, e)
+		} else {
+			own[e.From.key()] = append(own[e.From.key()], e)
+		}
+	}
+	return
 }
 
 // classFacts is the class record of the specification as exported with every edge.
